@@ -964,3 +964,614 @@ Proof.
   destruct (N.eqb_spec c 38) as [->|H38]; [reflexivity|].
   cbn [existsb]. rewrite orb_false_r. reflexivity.
 Qed.
+
+(* ------------------------------------------------------------------ *)
+(* ModifiedLines: Display / FromStr round trip *)
+#[local] Arguments N.add : simpl never.
+#[local] Arguments N.sub : simpl never.
+#[local] Arguments N.mul : simpl never.
+#[local] Arguments N.div : simpl never.
+#[local] Arguments N.modulo : simpl never.
+#[local] Arguments N.ltb : simpl never.
+#[local] Arguments N.leb : simpl never.
+#[local] Arguments N.eqb : simpl never.
+#[local] Arguments N.of_nat : simpl never.
+
+(* well-formedness of a report: what a value of the Rust type satisfies (fields are u32, a Vec has at most
+   usize::MAX elements) plus: no reported line contains LF.  Nothing about CR. *)
+Definition nolf (l : text) : Prop := ~ In LF l.
+Definition wf_chunk (c : mchunk) : Prop :=
+  mc_orig c <= U32_MAX /\ mc_removed c <= U32_MAX /\
+  N.of_nat (length (mc_lines c)) <= USIZE_MAX /\ Forall nolf (mc_lines c).
+Definition WF (cs : list mchunk) : Prop := Forall wf_chunk cs.
+(* what str::lines needs in addition (pre-repair parser): no reported line ends in CR *)
+Definition no_cr_end (l : text) : Prop := forall l', l <> l' ++ [CR].
+
+(* the line sequence a report prints as *)
+Definition flat (cs : list mchunk) : list text :=
+  concat (map (fun c => print_header c :: mc_lines c) cs).
+
+(* -- decimal numerals -- *)
+Definition all_dec (t : text) : Prop := Forall (fun c => is_dec_digit c = true) t.
+
+Lemma digits_val_app s : forall a t,
+  digits_val a (s ++ t) = match digits_val a s with Some v => digits_val v t | None => None end.
+Proof.
+  induction s as [|c s IH]; intros a t; cbn [app digits_val].
+  - reflexivity.
+  - destruct (is_dec_digit c); [apply IH|reflexivity].
+Qed.
+
+Lemma dec_digit_of_mod n : is_dec_digit (48 + n mod 10) = true.
+Proof.
+  pose proof (N.mod_upper_bound n 10 ltac:(lia)) as Hm.
+  generalize dependent (n mod 10). intros r Hr.
+  unfold is_dec_digit. apply andb_true_iff. split; apply N.leb_le; lia.
+Qed.
+
+Lemma le_digits_val fuel : forall n, n < 2 ^ N.of_nat fuel ->
+  digits_val 0 (rev (le_digits fuel n)) = Some n.
+Proof.
+  induction fuel as [|fuel IH]; intros n Hn.
+  - cbn in Hn. assert (n = 0) as -> by lia. reflexivity.
+  - rewrite Nat2N.inj_succ, N.pow_succ_r' in Hn.
+    cbn [le_digits rev]. rewrite digits_val_app.
+    pose proof (N.div_mod n 10 ltac:(lia)) as Hdm.
+    pose proof (N.mod_upper_bound n 10 ltac:(lia)) as Hm.
+    destruct (N.eqb_spec (n / 10) 0) as [E|E].
+    + cbn [rev digits_val]. rewrite dec_digit_of_mod. f_equal. clear IH.
+      generalize dependent (n mod 10). generalize dependent (n / 10). intros q Hq r Hr1 Hr2. lia.
+    + rewrite IH.
+      * cbn [digits_val]. rewrite dec_digit_of_mod. f_equal. clear IH.
+        generalize dependent (n mod 10). generalize dependent (n / 10). intros q Hq r Hr1 Hr2. lia.
+      * clear IH. assert (n / 10 <= n / 2) as Hle by (apply N.div_le_compat_l; lia).
+        assert (n / 2 < 2 ^ N.of_nat fuel) as Hlt by (apply N.div_lt_upper_bound; lia).
+        lia.
+Qed.
+
+Lemma size_nat_bound n : n < 2 ^ N.of_nat (N.size_nat n).
+Proof.
+  destruct n as [|q]; cbn [N.size_nat].
+  - cbn. lia.
+  - induction q as [q IH|q IH|]; cbn [Pos.size_nat].
+    + rewrite Nat2N.inj_succ, N.pow_succ_r'. lia.
+    + rewrite Nat2N.inj_succ, N.pow_succ_r'. lia.
+    + cbn. lia.
+Qed.
+
+(* decimal printing followed by decimal reading is the identity *)
+Lemma dec_val n : digits_val 0 (dec n) = Some n.
+Proof.
+  unfold dec. apply le_digits_val.
+  pose proof (size_nat_bound n) as H. rewrite Nat2N.inj_succ, N.pow_succ_r'. lia.
+Qed.
+
+Lemma le_digits_all fuel : forall n, all_dec (le_digits fuel n).
+Proof.
+  induction fuel as [|fuel IH]; intros n; cbn [le_digits]; constructor.
+  - apply dec_digit_of_mod.
+  - destruct (n / 10 =? 0); [constructor|apply IH].
+Qed.
+
+Lemma dec_all n : all_dec (dec n).
+Proof. unfold dec, all_dec. apply Forall_rev. apply le_digits_all. Qed.
+
+Lemma dec_nonempty n : dec n <> [].
+Proof.
+  unfold dec. cbn [le_digits rev]. intros H. apply app_eq_nil in H. destruct H as [_ H]. discriminate H.
+Qed.
+
+Lemma dec_digit_cases c : is_dec_digit c = true ->
+  c = 48 \/ c = 49 \/ c = 50 \/ c = 51 \/ c = 52 \/ c = 53 \/ c = 54 \/ c = 55 \/ c = 56 \/ c = 57.
+Proof.
+  unfold is_dec_digit. rewrite andb_true_iff, !N.leb_le. lia.
+Qed.
+
+Lemma dec_digit_not_ws c : is_dec_digit c = true -> is_whitespace c = false.
+Proof.
+  intros H. apply dec_digit_cases in H.
+  destruct H as [->|[->|[->|[->|[->|[->|[->|[->|[->| ->]]]]]]]]]; reflexivity.
+Qed.
+
+Lemma dec_digit_not_lf c : is_dec_digit c = true -> c <> LF.
+Proof. intros H ->. discriminate H. Qed.
+
+Lemma dec_digit_not_plus c : is_dec_digit c = true -> (c =? 43) = false.
+Proof.
+  intros H. apply dec_digit_cases in H.
+  destruct H as [->|[->|[->|[->|[->|[->|[->|[->|[->| ->]]]]]]]]]; reflexivity.
+Qed.
+
+Lemma parse_uint_dec max n : n <= max -> parse_uint max (dec n) = Some n.
+Proof.
+  intros Hn. pose proof (dec_val n) as Hv. pose proof (dec_all n) as Ha. pose proof (dec_nonempty n) as Hne.
+  destruct (dec n) as [|c rest]; [contradiction|].
+  unfold parse_uint. inversion Ha as [|? ? Hc _]; subst.
+  rewrite (dec_digit_not_plus c Hc), Hv. cbn [bounded].
+  destruct (N.leb_spec n max) as [_|Hgt]; [reflexivity|lia].
+Qed.
+
+Lemma bounded_some max o v : bounded max o = Some v -> v <= max.
+Proof.
+  destruct o as [w|]; cbn [bounded]; [|discriminate].
+  destruct (N.leb_spec w max) as [Hle|_]; [|discriminate]. intros H; inversion H; subst. exact Hle.
+Qed.
+
+Lemma parse_uint_bound max s v : parse_uint max s = Some v -> v <= max.
+Proof.
+  unfold parse_uint. destruct s as [|c rest]; [discriminate|].
+  destruct (c =? 43).
+  - destruct rest as [|d rest']; [discriminate|]. apply bounded_some.
+  - apply bounded_some.
+Qed.
+
+(* -- split_whitespace on the printed header -- *)
+Definition no_ws (w : text) : Prop := Forall (fun c => is_whitespace c = false) w.
+
+Lemma all_dec_no_ws w : all_dec w -> no_ws w.
+Proof. intros H. eapply Forall_impl; [|exact H]. intros c Hc. apply dec_digit_not_ws. exact Hc. Qed.
+
+Lemma split_ws_word w : forall cur s t, no_ws w -> is_whitespace s = true -> (cur <> [] \/ w <> []) ->
+  split_ws_aux cur (w ++ s :: t) = (rev cur ++ w) :: split_ws_aux [] t.
+Proof.
+  induction w as [|c w IH]; intros cur s t Hw Hs Hne.
+  - cbn [app split_ws_aux]. rewrite Hs. destruct cur as [|x cur]; [destruct Hne as [Hne|Hne]; contradiction|].
+    rewrite app_nil_r. reflexivity.
+  - inversion Hw as [|? ? Hc Hw']; subst. cbn [app split_ws_aux]. rewrite Hc.
+    rewrite IH; [|exact Hw'|exact Hs|left; discriminate].
+    cbn [rev]. rewrite <- app_assoc. reflexivity.
+Qed.
+
+Lemma split_ws_last w : forall cur, no_ws w -> (cur <> [] \/ w <> []) ->
+  split_ws_aux cur w = [rev cur ++ w].
+Proof.
+  induction w as [|c w IH]; intros cur Hw Hne.
+  - cbn [split_ws_aux]. destruct cur as [|x cur]; [destruct Hne as [Hne|Hne]; contradiction|].
+    rewrite app_nil_r. reflexivity.
+  - inversion Hw as [|? ? Hc Hw']; subst. cbn [split_ws_aux]. rewrite Hc.
+    rewrite IH; [|exact Hw'|left; discriminate].
+    cbn [rev]. rewrite <- app_assoc. reflexivity.
+Qed.
+
+Lemma split_ws_header a b c :
+  split_whitespace (dec a ++ [SP] ++ dec b ++ [SP] ++ dec c) = [dec a; dec b; dec c].
+Proof.
+  unfold split_whitespace. cbn [app].
+  rewrite split_ws_word; [|apply all_dec_no_ws, dec_all|reflexivity|right; apply dec_nonempty].
+  rewrite split_ws_word; [|apply all_dec_no_ws, dec_all|reflexivity|right; apply dec_nonempty].
+  rewrite split_ws_last; [|apply all_dec_no_ws, dec_all|right; apply dec_nonempty].
+  reflexivity.
+Qed.
+
+Lemma parse_header_print c : wf_chunk c ->
+  parse_header (print_header c) = Some (mc_orig c, mc_removed c, N.of_nat (length (mc_lines c))).
+Proof.
+  intros (Ho & Hr & Hn & _). unfold parse_header, print_header. rewrite split_ws_header.
+  rewrite !parse_uint_dec by assumption. reflexivity.
+Qed.
+
+Lemma parse_header_bound h a b c : parse_header h = Some (a, b, c) ->
+  a <= U32_MAX /\ b <= U32_MAX /\ c <= USIZE_MAX.
+Proof.
+  unfold parse_header. destruct (split_whitespace h) as [|o [|r [|n rest]]]; try discriminate.
+  destruct (parse_uint U32_MAX o) as [x|] eqn:Ex; [|discriminate].
+  destruct (parse_uint U32_MAX r) as [y|] eqn:Ey; [|discriminate].
+  destruct (parse_uint USIZE_MAX n) as [z|] eqn:Ez; [|discriminate].
+  intros H; inversion H; subst. repeat split; eapply parse_uint_bound; eassumption.
+Qed.
+
+(* -- split_terminator -- *)
+Lemma nolf_is_lf l : nolf l -> Forall (fun c => is_lf c = false) l.
+Proof.
+  intros H. apply Forall_forall. intros c Hc. unfold is_lf. apply N.eqb_neq. intros ->. apply H. exact Hc.
+Qed.
+
+Lemma split_term_line l : forall cur t, nolf l ->
+  split_term_aux cur (l ++ LF :: t) = (rev cur ++ l) :: split_term_aux [] t.
+Proof.
+  induction l as [|c l IH]; intros cur t Hl.
+  - cbn [app split_term_aux]. change (is_lf LF) with true. cbv iota. rewrite app_nil_r. reflexivity.
+  - cbn [app split_term_aux].
+    assert (is_lf c = false) as Hc.
+    { unfold is_lf. apply N.eqb_neq. intros ->. apply Hl. left. reflexivity. }
+    rewrite Hc. rewrite IH; [|intros Hin; apply Hl; right; exact Hin].
+    cbn [rev]. rewrite <- app_assoc. reflexivity.
+Qed.
+
+Lemma split_term_unlines ls : forall t, Forall nolf ls ->
+  split_terminator (unlines ls ++ t) = ls ++ split_terminator t.
+Proof.
+  unfold split_terminator, unlines.
+  induction ls as [|l ls IH]; intros t Hls; [reflexivity|].
+  inversion Hls as [|? ? Hl Hls']; subst.
+  cbn [map concat]. rewrite <- !app_assoc. cbn [app].
+  rewrite split_term_line by exact Hl. cbn [rev app]. rewrite IH by exact Hls'. reflexivity.
+Qed.
+
+Lemma all_dec_nolf w : all_dec w -> nolf w.
+Proof.
+  intros H Hin. unfold all_dec in H. rewrite Forall_forall in H. specialize (H _ Hin). discriminate H.
+Qed.
+
+Lemma nolf_app a b : nolf a -> nolf b -> nolf (a ++ b).
+Proof. intros Ha Hb Hin. apply in_app_or in Hin. destruct Hin; [apply Ha|apply Hb]; assumption. Qed.
+
+Lemma print_header_nolf c : nolf (print_header c).
+Proof.
+  unfold print_header.
+  assert (nolf [SP]) as Hsp by (intros [H|[]]; discriminate H).
+  apply nolf_app; [apply all_dec_nolf, dec_all|].
+  apply nolf_app; [exact Hsp|].
+  apply nolf_app; [apply all_dec_nolf, dec_all|].
+  apply nolf_app; [exact Hsp|apply all_dec_nolf, dec_all].
+Qed.
+
+Lemma print_modified_cons c cs : print_modified (c :: cs) = print_chunk c ++ print_modified cs.
+Proof. reflexivity. Qed.
+
+Lemma wf_lines_nolf cs : WF cs -> Forall (fun c => Forall nolf (mc_lines c)) cs.
+Proof. intros H. eapply Forall_impl; [|exact H]. intros c (_ & _ & _ & Hl). exact Hl. Qed.
+
+Lemma split_term_print cs : Forall (fun c => Forall nolf (mc_lines c)) cs ->
+  split_terminator (print_modified cs) = flat cs.
+Proof.
+  induction cs as [|c cs IH]; intros Hcs; [reflexivity|].
+  inversion Hcs as [|? ? Hc Hcs']; subst.
+  rewrite print_modified_cons. unfold print_chunk. rewrite <- !app_assoc. cbn [app].
+  unfold split_terminator at 1. rewrite split_term_line by apply print_header_nolf.
+  cbn [rev app]. fold (split_terminator (unlines (mc_lines c) ++ print_modified cs)).
+  rewrite split_term_unlines by exact Hc. rewrite IH by exact Hcs'. reflexivity.
+Qed.
+
+Lemma split_term_aux_nolf t : forall cur, nolf cur -> Forall nolf (split_term_aux cur t).
+Proof.
+  induction t as [|c t IH]; intros cur Hcur; cbn [split_term_aux].
+  - destruct cur as [|x cur]; constructor; [|constructor].
+    intros Hin. apply Hcur. apply in_rev. exact Hin.
+  - destruct (is_lf c) eqn:Ec.
+    + constructor.
+      * intros Hin. apply Hcur. apply in_rev. exact Hin.
+      * apply IH. intros [].
+    + apply IH. intros [Hin|Hin].
+      * subst c. discriminate Ec.
+      * apply Hcur. exact Hin.
+Qed.
+
+Lemma split_terminator_nolf t : Forall nolf (split_terminator t).
+Proof. apply split_term_aux_nolf. intros []. Qed.
+
+(* -- take -- *)
+Lemma take_lines_exact a : forall b, take_lines (N.of_nat (length a)) (a ++ b) = (a, b).
+Proof.
+  induction a as [|l a IH]; intros b.
+  - cbn [length app]. destruct b as [|x b]; reflexivity.
+  - cbn [length app take_lines].
+    destruct (N.eqb_spec (N.of_nat (S (length a))) 0) as [E|_]; [lia|].
+    replace (N.pred (N.of_nat (S (length a)))) with (N.of_nat (length a)) by lia.
+    rewrite IH. reflexivity.
+Qed.
+
+Lemma take_lines_split ls : forall n a b, take_lines n ls = (a, b) -> ls = a ++ b.
+Proof.
+  induction ls as [|l ls IH]; intros n a b H; cbn [take_lines] in H.
+  - inversion H; subst. reflexivity.
+  - destruct (n =? 0).
+    + inversion H; subst. reflexivity.
+    + destruct (take_lines (N.pred n) ls) as [a' b'] eqn:E. inversion H; subst.
+      cbn [app]. f_equal. eapply IH. exact E.
+Qed.
+
+(* -- the loop -- *)
+Lemma parse_loop_acc f : forall ls acc,
+  parse_loop f ls acc = match parse_loop f ls [] with POk cs => POk (acc ++ cs) | e => e end.
+Proof.
+  induction f as [|f IH]; intros ls acc.
+  - destruct ls as [|h rest]; cbn [parse_loop]; [rewrite app_nil_r|]; reflexivity.
+  - destruct ls as [|h rest]; cbn [parse_loop]; [rewrite app_nil_r; reflexivity|].
+    destruct (parse_header h) as [[[o r] n]|]; [|reflexivity].
+    destruct (take_lines n rest) as [a b].
+    destruct (N.of_nat (length a) =? n); [|reflexivity].
+    rewrite (IH b (acc ++ _)), (IH b ([] ++ _)).
+    destruct (parse_loop f b []) as [cs| |]; [|reflexivity|reflexivity].
+    rewrite <- app_assoc. reflexivity.
+Qed.
+
+Lemma flat_cons c cs : flat (c :: cs) = print_header c :: mc_lines c ++ flat cs.
+Proof. reflexivity. Qed.
+
+Lemma parse_loop_flat cs : forall f acc, WF cs -> (length (flat cs) <= f)%nat ->
+  parse_loop f (flat cs) acc = POk (acc ++ cs).
+Proof.
+  induction cs as [|c cs IH]; intros f acc Hwf Hf.
+  - rewrite app_nil_r. destruct f; reflexivity.
+  - inversion Hwf as [|? ? Hc Hwf']; subst.
+    rewrite flat_cons in *. cbn [length] in Hf. rewrite app_length in Hf.
+    destruct f as [|f]; [lia|]. cbn [parse_loop].
+    rewrite parse_header_print by exact Hc.
+    rewrite take_lines_exact. rewrite N.eqb_refl.
+    rewrite IH; [|exact Hwf'|lia].
+    rewrite <- app_assoc. cbn [app]. destruct c; reflexivity.
+Qed.
+
+Lemma parse_lines_flat cs : WF cs -> parse_lines_res (flat cs) = POk cs.
+Proof. intros H. unfold parse_lines_res. rewrite parse_loop_flat; [reflexivity|exact H|lia]. Qed.
+
+(* fuel = number of lines always suffices: the loop is never cut short *)
+Lemma parse_loop_total f : forall ls acc, (length ls <= f)%nat -> parse_loop f ls acc <> PDiverge.
+Proof.
+  induction f as [|f IH]; intros ls acc Hf.
+  - destruct ls as [|h rest]; [discriminate|cbn [length] in Hf; lia].
+  - destruct ls as [|h rest]; [discriminate|]. cbn [parse_loop length] in *.
+    destruct (parse_header h) as [[[o r] n]|]; [|discriminate].
+    destruct (take_lines n rest) as [a b] eqn:E.
+    destruct (N.of_nat (length a) =? n); [|discriminate].
+    apply IH. apply take_lines_split in E. subst rest. rewrite app_length in Hf. lia.
+Qed.
+
+Lemma parse_lines_total ls : parse_lines_res ls <> PDiverge.
+Proof. apply parse_loop_total. lia. Qed.
+
+Lemma parse_total_lemma t : parse_modified_res t <> PDiverge /\ parse_modified_pre_res t <> PDiverge.
+Proof. split; apply parse_lines_total. Qed.
+
+(* whatever the loop accepts is well-formed *)
+Lemma parse_loop_wf f : forall ls acc cs, Forall nolf ls -> WF acc ->
+  parse_loop f ls acc = POk cs -> WF cs.
+Proof.
+  induction f as [|f IH]; intros ls acc cs Hls Hacc H.
+  - destruct ls as [|h rest]; cbn [parse_loop] in H; [|discriminate]. inversion H; subst. exact Hacc.
+  - destruct ls as [|h rest]; cbn [parse_loop] in H; [inversion H; subst; exact Hacc|].
+    destruct (parse_header h) as [[[o r] n]|] eqn:Eh; [|discriminate].
+    destruct (take_lines n rest) as [a b] eqn:E.
+    destruct (N.eqb_spec (N.of_nat (length a)) n) as [En|_]; [|discriminate].
+    apply take_lines_split in E. subst rest.
+    inversion Hls as [|? ? _ Hrest]; subst. apply Forall_app in Hrest. destruct Hrest as [Ha Hb].
+    apply parse_header_bound in Eh. destruct Eh as (Ho & Hr & Hn).
+    eapply IH; [exact Hb| |exact H].
+    apply Forall_app. split; [exact Hacc|]. constructor; [|constructor].
+    unfold wf_chunk. cbn [mc_orig mc_removed mc_lines]. repeat split; try assumption.
+Qed.
+
+Lemma parse_modified_wf t cs : parse_modified t = Some cs -> WF cs.
+Proof.
+  unfold parse_modified, parse_modified_res, parse_lines_res, opt_of_pres. intros H.
+  destruct (parse_loop _ _ _) as [cs'| |] eqn:E; try discriminate. inversion H; subst.
+  eapply parse_loop_wf; [apply split_terminator_nolf|constructor|exact E].
+Qed.
+
+(* -- the round trip -- *)
+Lemma print_parse_roundtrip_lemma cs : WF cs -> parse_modified (print_modified cs) = Some cs.
+Proof.
+  intros H. unfold parse_modified, parse_modified_res.
+  rewrite split_term_print by (apply wf_lines_nolf; exact H).
+  rewrite parse_lines_flat by exact H. reflexivity.
+Qed.
+
+Lemma print_parse_roundtrip_iff_lemma cs : parse_modified (print_modified cs) = Some cs <-> WF cs.
+Proof. split; [apply parse_modified_wf|apply print_parse_roundtrip_lemma]. Qed.
+
+Lemma print_parse_wf_necessary_lemma cs : parse_modified (print_modified cs) = Some cs -> WF cs.
+Proof. apply parse_modified_wf. Qed.
+
+(* parse . print . parse = parse: printing normalises, and every parsed value prints to a text that parses to it *)
+Lemma parse_print_parse_lemma t cs : parse_modified t = Some cs ->
+  WF cs /\ parse_modified (print_modified cs) = Some cs.
+Proof.
+  intros H. pose proof (parse_modified_wf t cs H) as Hwf. split; [exact Hwf|].
+  apply print_parse_roundtrip_lemma. exact Hwf.
+Qed.
+
+Lemma print_injective_lemma cs cs' : WF cs -> WF cs' -> print_modified cs = print_modified cs' -> cs = cs'.
+Proof.
+  intros H H' E. apply print_parse_roundtrip_lemma in H. apply print_parse_roundtrip_lemma in H'.
+  rewrite E in H. rewrite H in H'. inversion H'. reflexivity.
+Qed.
+
+(* the converse for texts produced by print: if the text printed for a report without LF inside lines parses
+   at all, it parses to a report that prints to the same text *)
+Lemma print_of_parse_of_print_lemma cs cs' : Forall (fun c => Forall nolf (mc_lines c)) cs ->
+  parse_modified (print_modified cs) = Some cs' -> print_modified cs' = print_modified cs.
+Proof.
+  intros Hl H.
+  assert (WF cs) as Hwf.
+  { (* the numbers were accepted by the parser, so they are in range *)
+    unfold parse_modified, parse_modified_res in H. rewrite split_term_print in H by exact Hl.
+    unfold parse_lines_res in H.
+    remember (length (flat cs)) as f eqn:Ef. assert (length (flat cs) <= f)%nat as Hf by lia. clear Ef.
+    remember (@nil mchunk) as acc eqn:Eacc. clear Eacc.
+    revert f acc cs' Hf H. induction cs as [|c cs IH]; intros f acc cs' Hf H; [constructor|].
+    inversion Hl as [|? ? Hc Hl']; subst.
+    rewrite flat_cons in *. cbn [length] in Hf. rewrite app_length in Hf.
+    destruct f as [|f]; [lia|]. cbn [parse_loop] in H.
+    unfold parse_header in H. unfold print_header in H at 1. rewrite split_ws_header in H.
+    destruct (parse_uint U32_MAX (dec (mc_orig c))) as [x|] eqn:Ex; [|discriminate].
+    destruct (parse_uint U32_MAX (dec (mc_removed c))) as [y|] eqn:Ey; [|discriminate].
+    destruct (parse_uint USIZE_MAX (dec (N.of_nat (length (mc_lines c))))) as [z|] eqn:Ez; [|discriminate].
+    assert (Hval : forall max n v, parse_uint max (dec n) = Some v -> n <= max).
+    { intros max n v Hp. pose proof (parse_uint_bound _ _ _ Hp) as Hb.
+      destruct (N.le_gt_cases n max) as [Hle|Hgt]; [exact Hle|].
+      pose proof (dec_val n) as Hv. pose proof (dec_all n) as Ha. pose proof (dec_nonempty n) as Hne.
+      unfold parse_uint in Hp. destruct (dec n) as [|d rest]; [contradiction|].
+      inversion Ha as [|? ? Hd _]; subst. rewrite (dec_digit_not_plus d Hd), Hv in Hp. cbn [bounded] in Hp.
+      destruct (N.leb_spec n max); [lia|discriminate]. }
+    pose proof (Hval _ _ _ Ex) as Hx. pose proof (Hval _ _ _ Ey) as Hy. pose proof (Hval _ _ _ Ez) as Hz.
+    rewrite parse_uint_dec in Ez by exact Hz. inversion Ez; subst z.
+    rewrite take_lines_exact, N.eqb_refl in H.
+    constructor.
+    - repeat split; assumption.
+    - eapply IH; [exact Hl'| |exact H]. lia. }
+  rewrite (print_parse_roundtrip_lemma cs Hwf) in H. inversion H; subst. reflexivity.
+Qed.
+
+(* -- str::lines (the parser before 686d4f4) -- *)
+Lemma split_incl_line l : forall cur t, nolf l ->
+  split_incl_aux cur (l ++ LF :: t) = (rev cur ++ l ++ [LF]) :: split_incl_aux [] t.
+Proof.
+  induction l as [|c l IH]; intros cur t Hl.
+  - cbn [app split_incl_aux]. change (is_lf LF) with true. cbv iota. cbn [rev]. reflexivity.
+  - cbn [app split_incl_aux].
+    assert (is_lf c = false) as Hc.
+    { unfold is_lf. apply N.eqb_neq. intros ->. apply Hl. left. reflexivity. }
+    rewrite Hc. rewrite IH; [|intros Hin; apply Hl; right; exact Hin].
+    cbn [rev]. rewrite <- app_assoc. reflexivity.
+Qed.
+
+Lemma strip_line_keep l : no_cr_end l -> strip_line (l ++ [LF]) = l.
+Proof.
+  intros H. unfold strip_line. rewrite rev_app_distr. cbn [rev app strip_line_rev].
+  change (is_lf LF) with true. cbv iota.
+  destruct (rev l) as [|d r] eqn:E.
+  - apply (f_equal (@rev _)) in E. rewrite rev_involutive in E. subst l. reflexivity.
+  - apply (f_equal (@rev _)) in E. rewrite rev_involutive in E. cbn [rev] in E.
+    destruct (is_cr d) eqn:Ed.
+    + exfalso. apply (H (rev r)). unfold is_cr in Ed. apply N.eqb_eq in Ed. subst d. exact E.
+    + subst l. reflexivity.
+Qed.
+
+Lemma str_lines_unlines ls : forall t, Forall nolf ls -> Forall no_cr_end ls ->
+  str_lines (unlines ls ++ t) = ls ++ str_lines t.
+Proof.
+  unfold str_lines, split_inclusive, unlines.
+  induction ls as [|l ls IH]; intros t Hls Hcr; [reflexivity|].
+  inversion Hls as [|? ? Hl Hls']; subst. inversion Hcr as [|? ? Hc Hcr']; subst.
+  cbn [map concat]. rewrite <- !app_assoc. cbn [app].
+  rewrite split_incl_line by exact Hl. cbn [rev app map]. rewrite strip_line_keep by exact Hc.
+  rewrite IH by assumption. reflexivity.
+Qed.
+
+Lemma print_header_no_cr_end c : no_cr_end (print_header c).
+Proof.
+  intros l' E. unfold print_header in E. rewrite !app_assoc in E.
+  pose proof (dec_all (N.of_nat (length (mc_lines c)))) as Ha.
+  pose proof (dec_nonempty (N.of_nat (length (mc_lines c)))) as Hne.
+  destruct (@exists_last _ (dec (N.of_nat (length (mc_lines c)))) Hne) as (p & d & Ed).
+  rewrite Ed in E, Ha. rewrite app_assoc in E. apply app_inj_tail in E. destruct E as [_ E]. subst d.
+  unfold all_dec in Ha. rewrite Forall_forall in Ha. specialize (Ha CR).
+  assert (In CR (p ++ [CR])) as Hin by (apply in_or_app; right; left; reflexivity).
+  specialize (Ha Hin). discriminate Ha.
+Qed.
+
+Lemma str_lines_print cs : Forall (fun c => Forall nolf (mc_lines c)) cs ->
+  Forall (fun c => Forall no_cr_end (mc_lines c)) cs ->
+  str_lines (print_modified cs) = flat cs.
+Proof.
+  induction cs as [|c cs IH]; intros Hcs Hcr; [reflexivity|].
+  inversion Hcs as [|? ? Hc Hcs']; subst. inversion Hcr as [|? ? Hr Hcr']; subst.
+  rewrite print_modified_cons. unfold print_chunk. rewrite <- !app_assoc. cbn [app].
+  change (print_header c ++ LF :: unlines (mc_lines c) ++ print_modified cs)
+    with (unlines [] ++ print_header c ++ LF :: unlines (mc_lines c) ++ print_modified cs).
+  pose proof (str_lines_unlines [print_header c] (unlines (mc_lines c) ++ print_modified cs)) as H1.
+  unfold unlines at 1 in H1. cbn [map concat] in H1. rewrite <- !app_assoc in H1. cbn [app] in H1.
+  cbn [unlines map concat app]. rewrite H1.
+  - rewrite str_lines_unlines by assumption. rewrite IH by assumption. reflexivity.
+  - constructor; [apply print_header_nolf|constructor].
+  - constructor; [apply print_header_no_cr_end|constructor].
+Qed.
+
+Lemma print_parse_pre_roundtrip_lemma cs : WF cs -> Forall (fun c => Forall no_cr_end (mc_lines c)) cs ->
+  parse_modified_pre (print_modified cs) = Some cs.
+Proof.
+  intros H Hcr. unfold parse_modified_pre, parse_modified_pre_res.
+  rewrite str_lines_print; [|apply wf_lines_nolf; exact H|exact Hcr].
+  rewrite parse_lines_flat by exact H. reflexivity.
+Qed.
+
+(* -- reports produced by make_diff are well-formed -- *)
+Lemma strip_lines_nolf t : forall cur, nolf cur -> Forall nolf (map strip_line (split_incl_aux cur t)).
+Proof.
+  induction t as [|c t IH]; intros cur Hcur; cbn [split_incl_aux].
+  - destruct cur as [|x cur]; [constructor|]. cbn [map]. constructor; [|constructor].
+    unfold strip_line. rewrite rev_involutive. cbn [strip_line_rev].
+    assert (is_lf x = false) as Hx.
+    { unfold is_lf. apply N.eqb_neq. intros ->. apply Hcur. left. reflexivity. }
+    rewrite Hx. intros Hin. apply Hcur. apply in_rev. exact Hin.
+  - destruct (is_lf c) eqn:Ec.
+    + cbn [map]. constructor; [|apply IH; intros []].
+      unfold strip_line. rewrite rev_involutive. cbn [strip_line_rev]. rewrite Ec.
+      intros Hin. apply in_rev in Hin. apply Hcur.
+      destruct cur as [|d r]; [exact Hin|]. destruct (is_cr d); [right; exact Hin|exact Hin].
+    + apply IH. intros [Hin|Hin].
+      * subst c. discriminate Ec.
+      * apply Hcur. exact Hin.
+Qed.
+
+Lemma dlines_nolf t : Forall nolf (dlines t).
+Proof.
+  unfold dlines. apply Forall_app. split.
+  - unfold str_lines, split_inclusive. apply strip_lines_nolf. intros [].
+  - destruct (ends_with_lf t); constructor; [intros []|constructor].
+Qed.
+
+Lemma filter_res_length {A} (ls : list (dline A)) : length (filter is_res ls) = length (res_lines ls).
+Proof.
+  induction ls as [|d ls IH]; [reflexivity|]. destruct d; cbn [filter is_res res_lines length]; lia.
+Qed.
+
+Lemma report_wf_lemma (a b : text) :
+  N.of_nat (length (dlines a)) < U32_MAX -> N.of_nat (length (dlines b)) <= USIZE_MAX ->
+  WF (map mchunk_of (impl_modified_lines a b)).
+Proof.
+  intros Ha Hb. unfold impl_modified_lines, impl_make_diff, modified_lines.
+  destruct (diff_lines_valid a b) as (HL & HR & Hbe).
+  pose proof (hunks_consistent_lemma 0 (diff_lines a b) Hbe) as Hh.
+  pose proof (make_diff0_noctx (diff_lines a b)) as Hn.
+  rewrite HL, HR in Hh. pose proof (dlines_nolf b) as Hlf.
+  unfold WF. rewrite map_map. apply Forall_map.
+  induction (make_diff 0 (diff_lines a b)) as [|m ms IH]; [constructor|].
+  inversion Hh as [|? ? Hm Hh']; subst. inversion Hn as [|? ? Hc Hn']; subst.
+  constructor; [|apply IH; assumption]. clear IH Hh' Hn'.
+  destruct (noctx_osd (mm_lines m) Hc) as [Eo En].
+  destruct Hm as [(pa & xa & Epa & Hpa) (pb & xb & Epb & Hpb)].
+  rewrite Eo in Epa. rewrite En in Epb.
+  apply (f_equal (@length _)) in Epa. rewrite !app_length in Epa.
+  unfold wf_chunk, mchunk_of, chunk_of. cbn [mc_orig mc_removed mc_lines ch_orig ch_removed ch_lines].
+  rewrite filter_res_length.
+  assert (length (exp_lines (mm_lines m)) <= length (dlines b))%nat as Hle.
+  { rewrite Epb. rewrite !app_length. lia. }
+  repeat split; try lia.
+  rewrite Epb in Hlf. apply Forall_app in Hlf. destruct Hlf as [_ Hlf].
+  apply Forall_app in Hlf. destruct Hlf as [Hlf _]. exact Hlf.
+Qed.
+
+Lemma report_print_parse_lemma (a b : text) :
+  N.of_nat (length (dlines a)) < U32_MAX -> N.of_nat (length (dlines b)) <= USIZE_MAX ->
+  parse_modified (print_modified (map mchunk_of (impl_modified_lines a b)))
+  = Some (map mchunk_of (impl_modified_lines a b)).
+Proof. intros Ha Hb. apply print_parse_roundtrip_lemma. apply report_wf_lemma; assumption. Qed.
+
+(* -- witnesses: what fails without each hypothesis; what the parser before 686d4f4 did -- *)
+(* a line containing LF: the text parses, to a different report *)
+Lemma print_parse_lf_refuted_lemma : exists cs cs',
+  Forall (fun c => mc_orig c <= U32_MAX /\ mc_removed c <= U32_MAX /\ N.of_nat (length (mc_lines c)) <= USIZE_MAX) cs /\
+  parse_modified (print_modified cs) = Some cs' /\ cs' <> cs.
+Proof.
+  exists [MkMC 1 0 [[97; 10; 50; 32; 48; 32; 48]]], [MkMC 1 0 [[97]]; MkMC 2 0 []].
+  split; [|split]; [|vm_compute; reflexivity|discriminate].
+  constructor; [|constructor]. cbn [mc_orig mc_removed mc_lines length]. unfold U32_MAX, USIZE_MAX. lia.
+Qed.
+
+(* a number that does not fit u32 (not a value of the Rust type): the text is rejected *)
+Lemma print_parse_u32_refuted_lemma : exists cs,
+  Forall (fun c => Forall nolf (mc_lines c)) cs /\ parse_modified (print_modified cs) = None.
+Proof.
+  exists [MkMC 4294967296 0 []]. split; [|vm_compute; reflexivity]. constructor; [constructor|constructor].
+Qed.
+
+(* str::lines strips the CR of a reported line that ends in CR *)
+Lemma print_parse_pre_refuted_lemma : exists cs cs',
+  WF cs /\ parse_modified_pre (print_modified cs) = Some cs' /\ cs' <> cs.
+Proof.
+  exists [MkMC 3 1 [[120; 13]]], [MkMC 3 1 [[120]]].
+  split; [|split]; [|vm_compute; reflexivity|discriminate].
+  constructor; [|constructor]. unfold wf_chunk. cbn [mc_orig mc_removed mc_lines length].
+  unfold U32_MAX, USIZE_MAX. repeat split; try lia.
+  constructor; [|constructor]. intros [H|[H|[]]]; discriminate H.
+Qed.
+
+(* print after parse is not the identity on arbitrary accepted texts: no final newline, '+', extra words *)
+Lemma parse_then_print_refuted_lemma : exists t cs,
+  parse_modified t = Some cs /\ print_modified cs <> t.
+Proof.
+  exists [43; 49; 9; 48; 53; 32; 48; 32; 120], [MkMC 1 5 []]. split; [vm_compute; reflexivity|].
+  vm_compute. discriminate.
+Qed.
